@@ -29,6 +29,9 @@ type C20Query struct {
 	// Form: "" flat select; "derived": SELECT * FROM (<select>) x; "cte": WITH c AS (<select>) SELECT * FROM c.
 	// Variables are read and written inside the nested query.
 	Form string `json:"form,omitempty"`
+	// Arm2, when set, makes the statement `<this select> UNION ALL <Arm2>` over the same table: the left arm is
+	// evaluated (all its rows) before the right one, whatever form (flat / derived) either arm has
+	Arm2 *C20Query `json:"arm2,omitempty"`
 	// SameAs > 0: this step executes the Query object of step SameAs (1-based) once more.
 	SameAs int `json:"same_as,omitempty"`
 	// Pre: entries the caller writes into the shared variable map right before this step runs.
@@ -145,6 +148,30 @@ func genC20(t *rapid.T) any {
 			q.Form = rapid.SampledFrom([]string{"derived", "cte"}).Draw(t, ql+".form")
 			q.Items = append(q.Items, C20Item{Kind: "col", Val: sq.Col("a"), Alias: "ca"})
 		}
+		if !c.Big && q.Form != "cte" && rapid.IntRange(0, 5).Draw(t, ql+".union") == 0 {
+			// a second arm over the same table: its own WHERE, items and form (flat or derived table)
+			arm := C20Query{Rows: nil}
+			if rapid.Bool().Draw(t, ql+".arm2where") {
+				arm.Where = sq.Cmp(rapid.SampledFrom([]string{">", "<", "!="}).Draw(t, ql+".arm2wop"), sq.Col("a"), sq.Num(rapid.SampledFrom([]float64{1, 2, 3, 10}).Draw(t, ql+".arm2wc")))
+			}
+			for i := 0; i < rapid.IntRange(1, 4).Draw(t, ql+".arm2n"); i++ {
+				il := fmt.Sprintf("%s.arm2.i%d", ql, i)
+				switch rapid.IntRange(0, 4).Draw(t, il+".kind") {
+				case 0, 1:
+					k := rapid.SampledFrom([]string{"k1", "k2", "k3"}).Draw(t, il+".key")
+					arm.Items = append(arm.Items, C20Item{Kind: "set", Key: k, Val: genC20Value(t, k, il+".val")})
+				case 2, 3:
+					arm.Items = append(arm.Items, C20Item{Kind: "get", Key: rapid.SampledFrom(c20AllKeys).Draw(t, il+".key"), Alias: fmt.Sprintf("h%d", i)})
+				default:
+					arm.Items = append(arm.Items, C20Item{Kind: "col", Val: sq.Col("a"), Alias: fmt.Sprintf("d%d", i)})
+				}
+			}
+			arm.Items = append(arm.Items, C20Item{Kind: "col", Val: sq.Col("s"), Alias: "cs"})
+			if rapid.Bool().Draw(t, ql+".arm2derived") {
+				arm.Form = "derived"
+			}
+			q.Arm2 = &arm
+		}
 		if qi > 0 && rapid.IntRange(0, 5).Draw(t, ql+".again") == 0 {
 			// the Query object of an earlier step runs once more (it must start from the registers as they are now)
 			j := rapid.IntRange(1, qi).Draw(t, ql+".sameas")
@@ -152,7 +179,7 @@ func genC20(t *rapid.T) any {
 				j = c.Queries[j-1].SameAs
 			}
 			// (nested forms are evaluated when the query is constructed - when exactly is not part of the statement)
-			if c.Queries[j-1].Form == "" {
+			if c.Queries[j-1].Form == "" && c.Queries[j-1].Arm2 == nil {
 				q = c.Queries[j-1]
 				q.SameAs, q.Pre = j, nil
 			}
@@ -169,7 +196,7 @@ func genC20(t *rapid.T) any {
 	}
 	c.PreBuild = rapid.IntRange(0, 2).Draw(t, "prebuild") == 0
 	for _, q := range c.Queries {
-		if q.Form != "" {
+		if q.Form != "" || q.Arm2 != nil {
 			// a derived table / CTE is evaluated when the query is constructed; the statement orders
 			// evaluations, not constructions, so histories that separate the two use flat queries only
 			c.PreBuild = false
@@ -179,6 +206,11 @@ func genC20(t *rapid.T) any {
 }
 
 func (q *C20Query) sql() string {
+	if q.Arm2 != nil {
+		left := *q
+		left.Arm2 = nil
+		return left.sql() + " UNION ALL " + q.Arm2.sql()
+	}
 	var parts []string
 	for _, it := range q.Items {
 		switch it.Kind {
@@ -280,57 +312,66 @@ func checkC20(c *C20Case) Result {
 			},
 		}}
 		var want []any
-		for ri, r := range q.Rows {
-			row := r.(map[string]any)
-			if q.Where != nil {
-				keep, err := sq.EvalBool(q.Where, row, env)
-				if err != nil {
-					res.Harness = "reference WHERE: " + err.Error()
-					return res
-				}
-				if !keep {
-					continue
-				}
-			}
-			out := map[string]any{}
-			for _, it := range q.Items {
-				switch it.Kind {
-				case "set":
-					it.Val.Walk(func(e *sq.E) {
-						if e.K == "call" && strings.EqualFold(e.S, "GETVAR") {
-							if w, ok := writer[e.A[0].S]; ok && (w.q != qi || w.r != ri) {
-								crossRead = true
-							}
-						}
-					})
-					v, err := sq.Eval(it.Val, row, env)
+		arms := []*C20Query{q}
+		if q.Arm2 != nil {
+			arms = append(arms, q.Arm2)
+			res.Labels = append(res.Labels, "union-of-two-arms")
+		}
+		for ai, arm := range arms {
+			for ri0, r := range q.Rows {
+				ri := ri0 + ai*1000 // rows of the second arm are later evaluations
+				row := r.(map[string]any)
+				q := arm
+				if q.Where != nil {
+					keep, err := sq.EvalBool(q.Where, row, env)
 					if err != nil {
-						if u, ok := err.(*sq.ErrUnspecified); ok {
-							res.Discard = u.Why
-							return res
-						}
-						res.Harness = "reference SETVAR value: " + err.Error()
+						res.Harness = "reference WHERE: " + err.Error()
 						return res
 					}
-					model[it.Key] = v
-					writer[it.Key] = stamp{qi, ri}
-				case "get", "getsub":
-					if w, ok := writer[it.Key]; ok && (w.q != qi || w.r != ri) {
-						crossRead = true
+					if !keep {
+						continue
 					}
-					out[it.Alias] = model[it.Key]
-					if it.Kind == "getsub" {
-						out[it.Alias] = map[string]any{"g": model[it.Key]}
-					}
-				default:
-					v, _ := sq.Eval(it.Val, row, env)
-					out[it.Alias] = v
 				}
+				out := map[string]any{}
+				for _, it := range q.Items {
+					switch it.Kind {
+					case "set":
+						it.Val.Walk(func(e *sq.E) {
+							if e.K == "call" && strings.EqualFold(e.S, "GETVAR") {
+								if w, ok := writer[e.A[0].S]; ok && (w.q != qi || w.r != ri) {
+									crossRead = true
+								}
+							}
+						})
+						v, err := sq.Eval(it.Val, row, env)
+						if err != nil {
+							if u, ok := err.(*sq.ErrUnspecified); ok {
+								res.Discard = u.Why
+								return res
+							}
+							res.Harness = "reference SETVAR value: " + err.Error()
+							return res
+						}
+						model[it.Key] = v
+						writer[it.Key] = stamp{qi, ri}
+					case "get", "getsub":
+						if w, ok := writer[it.Key]; ok && (w.q != qi || w.r != ri) {
+							crossRead = true
+						}
+						out[it.Alias] = model[it.Key]
+						if it.Kind == "getsub" {
+							out[it.Alias] = map[string]any{"g": model[it.Key]}
+						}
+					default:
+						v, _ := sq.Eval(it.Val, row, env)
+						out[it.Alias] = v
+					}
+				}
+				if q.Form == "derived" {
+					out = map[string]any{"x": out}
+				}
+				want = append(want, out)
 			}
-			if q.Form == "derived" {
-				out = map[string]any{"x": out}
-			}
-			want = append(want, out)
 		}
 		sql := q.sql()
 		if built[qi] == nil {
